@@ -93,7 +93,7 @@ type modelSession struct {
 	out *bufio.Reader
 }
 
-func startModelSession(script string) (*modelSession, string) {
+func startModelSession(script string, prefs ...string) (*modelSession, string) {
 	cmd := exec.Command("z3-new", "-in", "-T:30")
 	in, _ := cmd.StdinPipe()
 	outp, _ := cmd.StdoutPipe()
@@ -112,13 +112,43 @@ func startModelSession(script string) (*modelSession, string) {
 		}
 		l := strings.TrimSpace(line)
 		if l == "sat" {
-			return ms, ""
+			break
 		}
 		if l == "unsat" || l == "unknown" || l == "timeout" {
 			ms.close()
 			return nil, l
 		}
 	}
+	if len(prefs) == 0 {
+		return ms, ""
+	}
+	// prefer a small model (short slices): try the preferences, fall back to the unconstrained model
+	readStatus := func() string {
+		for {
+			line, err := ms.out.ReadString('\n')
+			if err != nil {
+				return "ended"
+			}
+			l := strings.TrimSpace(line)
+			if l == "sat" || l == "unsat" || l == "unknown" || l == "timeout" {
+				return l
+			}
+		}
+	}
+	io.WriteString(in, "(push)\n")
+	for _, pf := range prefs {
+		io.WriteString(in, "(assert "+pf+")\n")
+	}
+	io.WriteString(in, "(check-sat)\n")
+	if readStatus() == "sat" {
+		return ms, ""
+	}
+	io.WriteString(in, "(pop)\n(check-sat)\n")
+	if st := readStatus(); st != "sat" {
+		ms.close()
+		return nil, st
+	}
+	return ms, ""
 }
 
 func (ms *modelSession) close() {
@@ -479,7 +509,13 @@ func tryReplay(w *World, o *Obligation, repo, replayDir string) *replayResult {
 		return rr
 	}
 	fn := vc.fn
-	ms, why := startModelSession(o.script(false))
+	var prefs []string
+	for _, p := range fn.Params {
+		if _, ok := p.Type().Underlying().(*types.Slice); ok {
+			prefs = append(prefs, fmt.Sprintf("(<= (s-len %s) 6)", vc.vals[p]))
+		}
+	}
+	ms, why := startModelSession(o.script(false), prefs...)
 	if ms == nil {
 		rr.fields["replay"] = "no model from z3-new (" + why + ")"
 		return rr
